@@ -3,6 +3,9 @@
 package main
 
 import (
+	"encoding/json"
+	"sort"
+
 	"github.com/Azbesciak/RealDecisionMaker/lib/model"
 )
 
@@ -10,6 +13,9 @@ import (
 //   corr  : Lean `ranking` on the same (id, value) list must print what Go returned
 //   spec  : Lean `check-c04` (exact rationals) on Go's output
 //   oracle: permutation metamorphic on the real code (value, links as set, position class)
+//   oracle: listing-order invariance of whole requests (the three utility methods; no bias, or a criteria
+//           concealment, which assigns its random values by alternative id): knownAlternatives and choseToMake
+//           are re-listed in another order, value / links / position of every alternative must stay
 
 func init() {
 	props["C04"] = func(o *Out, r *Rng, n int, thorough bool) {
@@ -18,7 +24,15 @@ func init() {
 			maxN = 12
 		}
 		for c := 0; c < n; c++ {
-			names, vals := genValueList(r, maxN)
+			if c%5 == 4 {
+				c04ListingOrder(o, r, c)
+				continue
+			}
+			sizeN := maxN
+			if r.chance(0.1) { // sort.Slice / sort.Sort switch algorithm above 12 elements
+				sizeN = 40
+			}
+			names, vals := genValueList(r, sizeN)
 			in := rankingInput(names, vals)
 			var rk *model.AlternativesRanking
 			msg := recoverErr(func() { rk = in.Ranking() })
@@ -57,4 +71,76 @@ func init() {
 			o.Oracle(m, ok, clause)
 		}
 	}
+}
+
+type c04Entry struct {
+	Id    string
+	Value float64
+	Links []string
+}
+
+func c04Entries(resp []byte) ([]c04Entry, bool) {
+	var r struct {
+		Result []struct {
+			Alternative struct {
+				Id string `json:"id"`
+			} `json:"alternative"`
+			Evaluation struct {
+				Value float64 `json:"value"`
+			} `json:"evaluation"`
+			BetterThanOrSameAs []string `json:"betterThanOrSameAs"`
+		} `json:"result"`
+	}
+	if json.Unmarshal(resp, &r) != nil {
+		return nil, false
+	}
+	out := make([]c04Entry, len(r.Result))
+	for i, e := range r.Result {
+		l := append([]string{}, e.BetterThanOrSameAs...)
+		sort.Strings(l)
+		out[i] = c04Entry{e.Alternative.Id, e.Evaluation.Value, l}
+	}
+	return out, true
+}
+
+func c04ListingOrder(o *Out, r *Rng, c int) {
+	q := genRequest(r, ReqOpts{Methods: []string{"weightedSum", "owa", "choquetIntegral"}, MaxBiases: -1, Prob: ProbOpts{MaxAlt: 9, MaxCrit: 4, NoRanges: true}})
+	// exact grid: every sum the code forms is exact, so no listing order can change a float result
+	for _, a := range q.Body["knownAlternatives"].([]interface{}) {
+		vals := a.(J)["criteria"].(J)
+		for _, k := range sortedJKeys(vals) {
+			vals[k] = float64(r.Intn(17)) / 2
+		}
+	}
+	q.Body["biases"] = []interface{}{}
+	if r.chance(0.6) && q.Method == "weightedSum" {
+		pr := J{"randomSeed": r.Intn(1000), "newCriterionImportance": float64(r.Intn(5)) / 4}
+		r.boundingInto(pr)
+		q.Body["biases"] = []interface{}{J{"name": "criteriaConcealment", "props": pr}}
+		o.count("listing-order:with-concealment")
+	}
+	st1, resp1 := decideBody(q.Body)
+	q2 := cloneJ(q.Body)
+	known := q2["knownAlternatives"].([]interface{})
+	r.Shuffle(len(known), func(i, j int) { known[i], known[j] = known[j], known[i] })
+	ch := q2["choseToMake"].([]interface{})
+	r.Shuffle(len(ch), func(i, j int) { ch[i], ch[j] = ch[j], ch[i] })
+	st2, resp2 := decideBody(q2)
+	o.Cases++
+	m := Meta{Stage: "listing-order", Case: c, Input: J{"request": q.Body, "relisted": q2}, Key: string(q.JSON()), Trivial: len(known) < 3}
+	if st1 != 200 || st2 != 200 {
+		o.count("listing-order:rejected")
+		o.Oracle(m, (st1 == 200) == (st2 == 200), "re-listing the alternatives changed the accept/reject verdict")
+		return
+	}
+	e1, ok1 := c04Entries(resp1)
+	e2, ok2 := c04Entries(resp2)
+	m.GoOut = J{"first": e1, "relisted": e2}
+	ok := ok1 && ok2 && len(e1) == len(e2)
+	clause := "value, position or links of an alternative depend on the listing order of knownAlternatives / choseToMake"
+	for i := 0; ok && i < len(e1); i++ {
+		ok = e1[i].Id == e2[i].Id && e1[i].Value == e2[i].Value && sameSet(e1[i].Links, e2[i].Links)
+	}
+	o.Oracle(m, ok, clause)
+	o.count("listing-order:compared")
 }
